@@ -30,6 +30,10 @@ type Case struct {
 	// LeafAKI: authorityKeyIdentifier form of the client certificate: "" (keyId) | absent | issuerserial | both |
 	// uri-serial | dns-serial | emptynames-serial (issuer named by a GeneralName that is not a directoryName)
 	LeafAKI string `json:"leaf_aki,omitempty"`
+	// TrustExtra: the same-name sibling CA and the stranger are configured as trusted_responder_certs (certificates the
+	// operator trusts for verifying responses of THEIR OWN certificates): that does not entitle them to answer for
+	// certificates of another issuer
+	TrustExtra bool `json:"trust_extra,omitempty"`
 	// SameSerial: the client certificate has the same serial number as its issuer's certificate (which was issued by
 	// the root: serial numbers are unique per issuer only)
 	SameSerial bool `json:"same_serial,omitempty"`
@@ -52,6 +56,7 @@ func genCase(t *rapid.T) Case {
 	}
 	c.LeafAKI = rapid.SampledFrom([]string{"", "", "", "", "", "absent", "issuerserial", "both", "uri-serial", "uri-serial", "dns-serial", "emptynames-serial"}).Draw(t, "leafaki")
 	c.SameSerial = c.Depth == 2 && rapid.Bool().Draw(t, "sameserial")
+	c.TrustExtra = rapid.IntRange(0, 2).Draw(t, "trustextra") == 0
 	c.Answer.Kind = rapid.SampledFrom(kinds).Draw(t, "kind")
 	c.Answer.Signer = rapid.SampledFrom(signers).Draw(t, "signer")
 	c.Answer.Serial = rapid.SampledFrom([]string{"this", "this", "this", "other"}).Draw(t, "serial")
@@ -129,7 +134,12 @@ func runCase(c Case, x *ev.Ctx) error {
 		served = b
 		return b
 	}
-	chk := world.NewOCSPChecker(world.OCSPOpts{Strict: c.Strict, Cache: 30 * time.Second})
+	opts := world.OCSPOpts{Strict: c.Strict, Cache: 30 * time.Second}
+	if c.TrustExtra {
+		opts.Trusted = []*x509.Certificate{parties.Sibling.Cert, parties.Stranger.Cert}
+		x.Class("sibling-and-stranger-configured-as-trusted-responders")
+	}
+	chk := world.NewOCSPChecker(opts)
 	if c.Prelude {
 		sibLeaf := gen.Issue(gen.CertSpec{Key: "p256d", Subject: gen.CN(name + " sibling client"), SerialHex: "0badc0df", OCSP: []string{o.URL("/sib-ocsp")}, AKI: "absent"}, parties.Sibling)
 		sp := world.NewOCSPParties(name+" sib", parties.Sibling, sibLeaf)
@@ -205,7 +215,7 @@ func runCase(c Case, x *ev.Ctx) error {
 	}
 	x.Class("non-authentic")
 	if len(served) > 5 {
-		x.NonTrivial(fmt.Sprintf("forged|%+v|%v|%s|%d|%d|%v|%v|%s|%v", c.Answer, c.Strict, c.CAKey, c.Depth, c.MutPos%32, c.LeafEKU, c.Prelude, c.LeafAKI, c.SameSerial))
+		x.NonTrivial(fmt.Sprintf("forged|%+v|%v|%s|%d|%d|%v|%v|%s|%v|%v", c.Answer, c.Strict, c.CAKey, c.Depth, c.MutPos%32, c.LeafEKU, c.Prelude, c.LeafAKI, c.SameSerial, c.TrustExtra))
 	}
 	return nil
 }
@@ -214,7 +224,7 @@ var spec = ev.Spec[Case]{
 	ID:          "C05",
 	Gen:         genCase,
 	Run:         runCase,
-	Rule:        "rapid draws one OCSP response for the presented certificate: signer in {issuer, issuer-delegated responder with OCSPSigning EKU, issuer-signed certificate without any EKU, issuer-signed certificate with clientAuth EKU, the client certificate itself (with / without an EKU extension; embedded in the response or not), self-signed stranger with or without embedded certificate, same-name sibling CA}, serial in {this, other}, status in {good, revoked, unknown}, response status in {successful, tryLater, unauthorized, internalError, malformedRequest, sigRequired}, garbage / HTML / empty bodies, nextUpdate in {absent, future, past}, the client certificate's authorityKeyIdentifier in {keyId, absent, issuer+serial, both, issuer named by a URI / dNSName / empty GeneralNames + serial}, optionally the client certificate carrying the same serial number as its issuer's certificate, and in a quarter of the cases a single-bit or byte mutation at a drawn position of an otherwise authentic response. Whether the served bytes are authentic is decided by the reference (library parse bound to the leaf and the issuer + OCSPSigning check on an embedded responder). Oracle: an authentic answer decides by its status; a non-authentic one is no answer: strict => the handshake errors, lenient => accepted even if it says revoked, and nothing is cached (the responder then answers authentically 'revoked' and the next handshake must be rejected, with a 30 s cache configured). Non-trivial: the bytes are a non-empty response; distinct by (answer shape, strict, key, depth, mutation bucket).",
+	Rule:        "rapid draws one OCSP response for the presented certificate: signer in {issuer, issuer-delegated responder with OCSPSigning EKU, issuer-signed certificate without any EKU, issuer-signed certificate with clientAuth EKU, the client certificate itself (with / without an EKU extension; embedded in the response or not), self-signed stranger with or without embedded certificate, same-name sibling CA}, serial in {this, other}, status in {good, revoked, unknown}, response status in {successful, tryLater, unauthorized, internalError, malformedRequest, sigRequired}, garbage / HTML / empty bodies, nextUpdate in {absent, future, past}, the client certificate's authorityKeyIdentifier in {keyId, absent, issuer+serial, both, issuer named by a URI / dNSName / empty GeneralNames + serial}, optionally the client certificate carrying the same serial number as its issuer's certificate, optionally the sibling CA and the stranger configured as trusted responder certificates, and in a quarter of the cases a single-bit or byte mutation at a drawn position of an otherwise authentic response. Whether the served bytes are authentic is decided by the reference (library parse bound to the leaf and the issuer + OCSPSigning check on an embedded responder). Oracle: an authentic answer decides by its status; a non-authentic one is no answer: strict => the handshake errors, lenient => accepted even if it says revoked, and nothing is cached (the responder then answers authentically 'revoked' and the next handshake must be rejected, with a 30 s cache configured). Non-trivial: the bytes are a non-empty response; distinct by (answer shape, strict, key, depth, mutation bucket).",
 	Assumptions: []string{"golang.org/x/crypto/ocsp's authenticated parse (ParseResponseForCert with an issuer) is the trusted reference for signature and serial matching"},
 }
 
